@@ -1,2 +1,3 @@
 -- Property files of work group E (import UF.Props.Cxx lines go here).
 import UF.Driver.Ops.GroupE
+import UF.Props.C04
